@@ -578,7 +578,8 @@ class Body:
                 # `otherwise` covers the remaining variants (may be unreachable)
                 if t['otherwise'] not in lab or rest:
                     lab[t['otherwise']].extend(rest)
-            return ('enum', subj[1], {k: tuple(v) for k, v in lab.items()})
+            es, conv = norm_enum_subject(subj[1])
+            return ('enum', es, {k: tuple(conv.get(x, x) for x in v) for k, v in lab.items()})
         lab = defaultdict(list)
         for v, tgt in arms:
             lab[tgt].append(v)
@@ -653,14 +654,35 @@ class Body:
                     o = out_of(p)
                     if o is TOP:
                         continue
-                    o = o | frozenset(ef.get((p, b), []))
+                    new = ef.get((p, b), [])
+                    if new and _contradicts(o, new):
+                        # the edge cannot be taken (e.g. a drop-elaboration re-test of a discriminant that an
+                        # enclosing match arm already fixed): it contributes no executions
+                        continue
+                    o = o | frozenset(new)
                     acc = o if acc is TOP else (acc & o)
                 if acc is not TOP and acc != fin[b]:
                     fin[b] = acc
                     changed = True
         res = {b: (f if f is not None else frozenset()) for b, f in fin.items()}
+        self._cache['dead_blocks'] = frozenset(b for b, f in fin.items() if f is None)
         self._cache[key] = res
         return res
+
+    def edge_infeasible(self, src, dst):
+        """the condition of edge src->dst contradicts a fact that must hold when src is left"""
+        if self.is_dead(src):
+            return True
+        f = self.facts_in().get(src, frozenset())
+        w = self.block_writes(src)
+        if w:
+            f = frozenset(x for x in f if not fact_killed(x, w))
+        return _contradicts(f, self.edge_facts().get((src, dst), []))
+
+    def is_dead(self, bb):
+        """no feasible path reaches bb (every path takes an edge whose condition contradicts a must-hold fact)"""
+        self.facts_in()
+        return bb in self._cache['dead_blocks']
 
     def block_may_write(self, b):
         """does block b contain a store through a projection or a call that may mutate memory
@@ -911,8 +933,51 @@ def mk_variant(e, v):
     return ('variant', e, v)
 
 
+# success-preserving adapters: the Ok/Some payload of adapter(X, ..) is the Ok/Some payload of X, and the
+# adapter's result is a failure exactly when X is one. (callee-name regex, {adapter variant: variant of X})
+_ADAPTERS = [
+    (r'option::Option::<.*>::ok_or(_else)?$|Option<T>::ok_or(_else)?$', {'Ok': 'Some', 'Err': 'None'}),
+    (r'result::Result::<.*>::map_err$|Result<T, E>::map_err$', {'Ok': 'Ok', 'Err': 'Err'}),
+    (r'result::Result::<.*>::ok$|Result<T, E>::ok$', {'Some': 'Ok', 'None': 'Err'}),
+]
+
+
+def _adapter(x):
+    if x[0] == 'call' and x[2]:
+        for rx, conv in _ADAPTERS:
+            if re.search(rx, x[1]):
+                return x[2][0], conv
+    return None
+
+
+def norm_enum_subject(e):
+    """(subject', {variant name -> variant name of subject'}): `branch(X) is Continue` is `X is Ok` (or Some),
+    `ok_or(X, _) is Err` is `X is None`, `map_err(X, f) is Ok` is `X is Ok` ..."""
+    conv = {}
+    for _ in range(6):
+        step = None
+        if e[0] == 'call' and e[1].endswith('Try>::branch') and e[2]:
+            if 'result::Result<' in e[1]:
+                step = (e[2][0], {'Continue': 'Ok', 'Break': 'Err'})
+            elif 'option::Option<' in e[1]:
+                step = (e[2][0], {'Continue': 'Some', 'Break': 'None'})
+        else:
+            step = _adapter(e)
+        if step is None:
+            break
+        e, c = step
+        if conv:
+            conv = {k: c.get(v, v) for k, v in conv.items()}
+        else:
+            conv = dict(c)
+    return e, conv
+
+
 def mk_try(x):
     """success payload of `?` applied to x; sees through Ok(..) constructions and phis of them"""
+    ad = _adapter(x)
+    if ad is not None:
+        return mk_try(ad[0])
     if x[0] == 'aggr' and x[1] == 'adt' and x[2].endswith(('Result::Ok', 'Option::Some')) and x[3]:
         return x[3][0][1]
     if x[0] == 'phi':
@@ -947,6 +1012,9 @@ def mk_field(e, name):
         # success payload of `?`
         if e[2] == 'Continue' and inner[0] == 'call' and 'Try' in inner[1] and inner[1].endswith('branch') and name == '0':
             return mk_try(inner[2][0])
+        # `match x { Ok(v) => v, .. }` and `x?` name the same value
+        if e[2] in ('Ok', 'Some') and name == '0':
+            return mk_try(inner)
     if k == 'phi':
         alts = [mk_field(x, name) for x in e[1]]
         alts = [a for a in alts if a != ('never',)]
@@ -1033,7 +1101,7 @@ def is_transparent_call(name):
     return any(r.search(name) for r in _TRANSPARENT_RE)
 
 
-def peel(e, calls=True, casts=False):
+def peel(e, calls=True, casts=False, tries=True):
     """strip refs/derefs, named-const wrappers, `?`, and (optionally) transparent calls."""
     while True:
         k = e[0] if e else None
@@ -1041,7 +1109,7 @@ def peel(e, calls=True, casts=False):
             e = e[1]
         elif k == 'named':
             e = e[2]
-        elif k == 'try':
+        elif k == 'try' and tries:
             e = e[1]
         elif k == 'cast' and casts:
             e = e[2]
@@ -1584,6 +1652,9 @@ def canon(e, keep_casts=True, _d=0, labels=None):
     if k == 'local':
         return '_%d' % e[2]
     if k == 'try':
+        c = peel(e[1], calls=False, tries=False)
+        if c[0] == 'call' and method_name(c[1]) == 'next' and c[2] and 'Iterator' in c[1]:
+            return 'each(%s)' % canon(c[2][0], keep_casts, d)
         return canon(e[1], keep_casts, d) + '?'
     if k == 'field':
         base = e[1]
@@ -1974,7 +2045,48 @@ def thread_known_variants(raw, max_chain=8, max_rounds=40):
             break
         if not changed:
             break
+    if changed_any:
+        _prune_unreachable(raw)
     return changed_any
+
+
+def _prune_unreachable(raw):
+    """blocks that lost their last predecessor through threading become empty dead blocks (kept so that block
+    indices stay stable)"""
+    blocks = raw['blocks']
+    seen = {0}
+    work = [0]
+    while work:
+        b = work.pop()
+        t = blocks[b]['term']
+        nxt = list(_targets_of(t))
+        u = t.get('unwind')
+        if isinstance(u, int):
+            nxt.append(u)
+        if isinstance(t.get('cleanup'), int):
+            nxt.append(t['cleanup'])
+        for n in nxt:
+            if n is not None and n not in seen:
+                seen.add(n)
+                work.append(n)
+    for i, b in enumerate(blocks):
+        if i not in seen and not b.get('cleanup'):
+            b['stmts'] = []
+            b['term'] = {'k': 'unreachable', 'span': b['term'].get('span', {})}
+            b['cleanup'] = True
+            b['dead'] = True
+
+
+def _contradicts(facts, new):
+    for n in new:
+        if n[0] == 'is':
+            for f in facts:
+                if f[0] == 'is' and f[1] == n[1] and not set(f[2]) & set(n[2]):
+                    return True
+        elif n[0] == 'cond':
+            if ('cond', n[1], not n[2]) in facts:
+                return True
+    return False
 
 
 def _targets_of(t):
